@@ -74,6 +74,9 @@ def main(argv):
         status, dt, info = run_mutant(m, tier)
         print(f"{m['id']:<28} {m['prop']} {status:<8} {dt:6.1f}s  {info}", flush=True)
         res.append({'id': m['id'], 'prop': m['prop'], 'status': status, 'wall_s': round(dt, 1), 'info': info})
+    if not argv:
+        with open(os.path.join(VERIF, 'tools', 'sensitivity_results.json'), 'w') as f:
+            json.dump({'tier': tier, 'results': res}, f, indent=1)
     missed = [r for r in res if r['status'] != 'CAUGHT']
     print(f'{len(res) - len(missed)}/{len(res)} caught')
     return 1 if missed else 0
